@@ -24,6 +24,7 @@ type genCfg struct {
 	obsPath   string
 	profile   string
 	focus     string
+	app       bool // appgen: record through apprun and avoid the ops it does not support
 }
 
 type Gen struct {
@@ -35,18 +36,20 @@ type Gen struct {
 	opsW, obsW *bufio.Writer
 
 	// per history
-	now        int64
-	prev       *snapshot
-	seenStatus map[[2]uint64]bool
-	hDenoms    []int // denoms (0…4) used for selling / paying in this history
-	oddDenom   int   // a denom of 0…4 that no auction of this history uses on purpose
-	poor       int   // bidder left poor (-1 = none)
-	target     int   // number of auctions this history wants to create
-	left       int   // remaining op budget of the random phase
-	budgeted   bool  // true while ops count against `left`
+	now            int64
+	prev           *snapshot
+	seenStatus     map[[2]uint64]bool
+	hDenoms        []int // denoms (0…4) used for selling / paying in this history
+	oddDenom       int   // a denom of 0…4 that no auction of this history uses on purpose
+	poor           int   // bidder left poor (-1 = none)
+	target         int   // number of auctions this history wants to create
+	left           int   // remaining op budget of the random phase
+	budgeted       bool  // true while ops count against `left`
+	inScenario     bool  // a scenario template is being played
+	scenarioPrefix int
 }
 
-func genMain(args []string) error {
+func genMain(args []string, appMode bool) error {
 	fs := flag.NewFlagSet("gen", flag.ContinueOnError)
 	var c genCfg
 	fs.Int64Var(&c.seed, "seed", 1, "PRNG seed")
@@ -81,7 +84,12 @@ func genMain(args []string) error {
 		return err
 	}
 	defer obsF.Close()
-	e, err := NewEnv()
+	c.app = appMode
+	newEnv := NewEnv
+	if appMode {
+		newEnv = NewAppEnv
+	}
+	e, err := newEnv()
 	if err != nil {
 		return err
 	}
@@ -219,6 +227,19 @@ func (g *Gen) history() {
 	g.st.Histories++
 	g.budgeted = false
 	g.prev = nil
+	// scenario choice first, so that the `# scenario:` comment can precede the history
+	scenario := ""
+	g.scenarioPrefix = 0
+	if g.chance(0.35) {
+		scenario = g.pickScenario()
+		if g.chance(0.5) {
+			g.scenarioPrefix = g.between(1, 4)
+		}
+		g.opsW.WriteString("# scenario: " + scenario + "\n")
+		g.st.Scenarios[scenario]++
+	} else {
+		g.opsW.WriteString("# scenario: none (free random walk)\n")
+	}
 	g.emit("reset")
 	g.now = GenesisTime
 
@@ -253,13 +274,21 @@ func (g *Gen) history() {
 			g.emit(fmt.Sprintf("fund %d %d %s", u, g.oddDenom, g.bigAmount(15, 30)))
 		}
 	}
-	if g.cfg.focus == "hooks" {
+	if g.cfg.focus == "hooks" && !g.cfg.app {
 		g.emit(fmt.Sprintf("listeners %d", g.between(1, 3)))
 	}
 
-	// random phase
+	// random phase, for ~35 % of the histories interleaved with a scenario template
 	g.left = g.cfg.maxops
 	g.budgeted = true
+	if scenario != "" {
+		for i := g.scenarioPrefix; i > 0 && g.left > 0; i-- {
+			g.step() // a few free steps first, so that scenario auctions do not always get id 0
+		}
+		g.inScenario = true
+		g.playScenario(scenario)
+		g.inScenario = false
+	}
 	for g.left > 0 {
 		g.step()
 	}
@@ -285,7 +314,7 @@ func (g *Gen) step() {
 	if g.thorough() {
 		genesisRate = 2.0
 	}
-	if g.chance(genesisRate / float64(g.cfg.maxops)) {
+	if !g.cfg.app && g.chance(genesisRate/float64(g.cfg.maxops)) {
 		g.emit("genesis")
 		return
 	}
@@ -319,7 +348,7 @@ func (g *Gen) step() {
 		return no
 	}
 	rare := 1.2 // ≈ 2 % of the total weight
-	hooksFocus, faultsFocus := g.cfg.focus == "hooks", g.cfg.focus == "faults"
+	hooksFocus := g.cfg.focus == "hooks"
 	type act struct {
 		w  float64
 		fn func() []string
@@ -332,11 +361,11 @@ func (g *Gen) step() {
 		{w(batchBids, 7, w(nA > 0, 0.5, 0)), func() []string { return g.genModify(s) }},
 		{w(anyStandby, 2.5, w(nA > 0, 0.7, 0.1)), func() []string { return g.genCancel(s) }},
 		{2, func() []string { return g.genGift(s) }},
-		{1.5, func() []string { return g.genParams(s) }},
+		{w(g.cfg.app, 0, 1.5), func() []string { return g.genParams(s) }},
 		{w(nA > 0, w(needBids, 6, 14), 2), func() []string { return g.genBlock(s) }},
 		{4, func() []string { return g.genQuery(s) }},
 		{0.5, func() []string { return g.genAddmsg(s) }},
-		{w(hooksFocus, 3, rare), func() []string { return []string{fmt.Sprintf("listeners %d", g.between(0, 3))} }},
+		{w(g.cfg.app, 0, w(hooksFocus, 3, rare)), func() []string { return []string{fmt.Sprintf("listeners %d", g.between(0, 3))} }},
 	}
 	ws := make([]float64, len(acts))
 	for i, a := range acts {
@@ -347,35 +376,75 @@ func (g *Gen) step() {
 		lines = g.genBlock(s)
 	}
 	for _, l := range lines {
-		kind := strings.Fields(l)[0]
-		if moduleOps[kind] {
-			// injections right before a module op
-			pHook, pFault := 0.02, 0.02
-			if hooksFocus {
-				pHook = 0.35
-			}
-			if faultsFocus {
-				pFault = 0.3
-				if kind == "block" && g.blockWillAct(s, l) {
-					pFault = 0.6
-				}
-			}
-			if hooks := hooksOf(kind); len(hooks) > 0 && g.chance(pHook) {
-				if kind != "block" || g.blockWillAct(s, l) || g.chance(0.2) {
-					g.emit(fmt.Sprintf("failhook %s %d", hooks[g.intn(len(hooks))], g.intn(3)))
-				}
-			}
-			if g.chance(pFault) {
-				g.emit(fmt.Sprintf("fault %d", g.intn(7)))
-			}
-		}
-		if kind == "block" {
-			var t int64
-			fmt.Sscanf(strings.Fields(l)[1], "%d", &t)
-			g.now = t
-		}
-		g.emit(l)
+		g.emitOp(l)
 	}
+}
+
+// emitOp emits one generated op line: possibly an injection (`failhook` / `fault`) right before a
+// module op, the clock update of a `block`, the op itself and (appgen) the quiesce blocks.  It
+// returns the `res` line of the op.
+func (g *Gen) emitOp(l string) string {
+	s := g.prev
+	hooksFocus, faultsFocus := g.cfg.focus == "hooks", g.cfg.focus == "faults"
+	kind := strings.Fields(l)[0]
+	if moduleOps[kind] {
+		// injections right before a module op
+		pHook, pFault := 0.02, 0.02
+		if g.cfg.app {
+			pHook, pFault = 0, 0 // listeners / failhook / fault are not supported by apprun
+		}
+		if hooksFocus {
+			pHook = 0.35
+		}
+		if faultsFocus {
+			pFault = 0.3
+			if kind == "block" && g.blockWillAct(s, l) {
+				pFault = 0.6
+			}
+		}
+		if g.inScenario && !hooksFocus && !faultsFocus {
+			pHook, pFault = 0, 0 // do not derail a scenario by a stray injection
+		}
+		if hooks := hooksOf(kind); len(hooks) > 0 && g.chance(pHook) {
+			if kind != "block" || g.blockWillAct(s, l) || g.chance(0.2) {
+				g.emit(fmt.Sprintf("failhook %s %d", hooks[g.intn(len(hooks))], g.intn(3)))
+			}
+		}
+		if g.chance(pFault) {
+			g.emit(fmt.Sprintf("fault %d", g.intn(7)))
+		}
+	}
+	if kind == "block" {
+		var t int64
+		fmt.Sscanf(strings.Fields(l)[1], "%d", &t)
+		g.now = t
+	}
+	res := g.emit(l)
+	g.quiesce()
+	return res
+}
+
+// quiesce (appgen only): in the app EVERY block — also the block that carries a message tx —
+// runs the module's BeginBlocker at the current block time, whereas in the model only `block`
+// ops do.  BeginBlocker advances one lifecycle stage per auction and block, so a tx block would
+// silently advance an auction that still has a stage due at the current time (started with the
+// end time reached, vesting with a release due, a further extension round …).  To keep both
+// sides in step, repeat `block <now>` until nothing is due any more; tx blocks are then
+// idempotent with respect to BeginBlocker.  These blocks do not count against -maxops.
+func (g *Gen) quiesce() {
+	if !g.cfg.app {
+		return
+	}
+	saved := g.budgeted
+	g.budgeted = false
+	for i := 0; i < 60; i++ {
+		p := pendingInstants(g.prev)
+		if len(p) == 0 || p[0] > g.now {
+			break
+		}
+		g.emit(fmt.Sprintf("block %d", g.now))
+	}
+	g.budgeted = saved
 }
 
 // hooksOf lists the hooks an op kind can trigger.
